@@ -805,6 +805,17 @@ func (loader *Loader) resolveRequestBodyRef(doc *T, component *RequestBodyRef, d
 			}
 			contentType.Examples[name] = example
 		}
+		for _, encodingName := range componentNames(contentType.Encoding) {
+			encoding := contentType.Encoding[encodingName]
+			if encoding == nil {
+				continue
+			}
+			for _, headerName := range componentNames(encoding.Headers) {
+				if err := loader.resolveHeaderRef(doc, encoding.Headers[headerName], documentPath); err != nil {
+					return err
+				}
+			}
+		}
 		if schema := contentType.Schema; schema != nil {
 			if err := loader.resolveSchemaRef(doc, schema, documentPath, []string{}); err != nil {
 				return err
@@ -877,6 +888,17 @@ func (loader *Loader) resolveResponseRef(doc *T, component *ResponseRef, documen
 				return err
 			}
 			contentType.Examples[name] = example
+		}
+		for _, encodingName := range componentNames(contentType.Encoding) {
+			encoding := contentType.Encoding[encodingName]
+			if encoding == nil {
+				continue
+			}
+			for _, headerName := range componentNames(encoding.Headers) {
+				if err := loader.resolveHeaderRef(doc, encoding.Headers[headerName], documentPath); err != nil {
+					return err
+				}
+			}
 		}
 		if schema := contentType.Schema; schema != nil {
 			if err := loader.resolveSchemaRef(doc, schema, documentPath, []string{}); err != nil {
